@@ -172,11 +172,18 @@ AreaTight ==
        T \subseteq PointsOf(q) => PointsOf(r) \subseteq PointsOf(q)
   /\ (T = {} => r = Zero)
 \* the machine's own observations satisfy the property-level predicate of the trace spec
+OutsideProbes == { <<SIZE, 0>>, <<0, SIZE>>, <<-1, 1>>, <<SIZE, SIZE - 1>>, <<SIZE + 1, 1>>, <<-1, -1>> }
+OutsideSeq(pinned) ==
+  SetToSeq({ <<p[1], p[2], LET v == IF pinned THEN GetPixelPinnedT(d, p) ELSE GetPixelT(d, p) IN
+                           IF v = NoColour THEN 0 ELSE IF v = PanicV THEN 2 ELSE 1>> : p \in OutsideProbes })
 MachineObs ==
   [cells |-> Triples(d.cells), ref |-> Triples(rf.cells), aa |-> AffectedArea(d), raa |-> AffectedArea(rf),
    eq |-> IF Eq(d, rf) THEN 1 ELSE 0, eqr |-> IF Eq(rf, d) THEN 1 ELSE 0, ne |-> IF Eq(d, rf) THEN 0 ELSE 1,
-   diff |-> Triples(Diff(d, rf))]
+   diff |-> Triples(Diff(d, rf)),
+   outside |-> OutsideSeq(FALSE)]
 ObsOK == ObsFails(d, rf, MachineObs) = {}
+\* negative control (MC_C20_d25.cfg): get_pixel as it was before the repair D25 must be refuted
+ObsOKPinned == ObsFails(d, rf, [MachineObs EXCEPT !.outside = OutsideSeq(TRUE)]) = {}
 \* Debug -> from_pattern gives the display back whenever every colour has a character
 \* (BinaryColor: both model colours; Gray8: colour 1 has none)
 PatternBack ==
